@@ -375,6 +375,76 @@ CLAIMED['C20'] = dict(
     note='click-history clauses are necessary conditions, not the '
          'behaviour')
 PENDING = {}
+# clauses added by later rounds (inserted before "Not decided" of the text)
+EXTRA_TEXT = {
+    'C01': 'The scanner is interpreted over what its tests establish about '
+           'the text at the candidate position (prefix knowledge): every '
+           'SGML tag prefix is recognised on some path and the name / '
+           'entity body is read from the first character after it, '
+           'whatever the code shape (merged branches, helpers, '
+           'startswith); the compiled blocks a template stores are the '
+           'parse of its own source, or come from a shared store keyed by '
+           'the reader class; a hand-written line-end scan treats only '
+           'blank and tab as blanks.',
+    'C02': 'A namespace source that is modified in place through self '
+           '(template variables) is never a mutable class-level default '
+           'left unbound by the initialiser.',
+    'C06': 'Tags are classified only through the wrapper that resolves '
+           'lazily registered commands (no raw parseTag call in the '
+           'parser); single-character indexes of the scanner lie inside '
+           'the matched prefix on every path.',
+    'C07': 'Both tag readers compare the argument text without surrounding '
+           'blanks (stripped by the reader or, for SGML, by the scanner on '
+           'every tag path); open and close tags are delimited by the same '
+           'events relative to the prefix (quote-parity evaluator).',
+    'C08': 'Popping zero entries removes nothing: _pop(n) is exact for '
+           'n = 0 or every caller passes a count proven >= 1.',
+    'C09': 'An undefined name never selects its body (no path of one loop '
+           'round through the KeyError handler renders a body); the '
+           'compiled if/elif/else sequence is accepted by the DFA '
+           'CB(CB)*B? whatever way it is assembled (shape domain).',
+    'C12': 'Every element pulled from the wrapped iterator is stored in '
+           'the cache before the next pull, loop round or return (flow '
+           'obligation). The numeric look-ahead bound is decided for '
+           'opt(): on every path elements pulled <= end + size + orphan '
+           '(zone abstract interpretation with a ghost counter). Not '
+           'decided: how many windows a template asks for (next-batches '
+           'walks them all by design), what a user sequence pulls inside '
+           'its own __getitem__.',
+    'C13': 'An element that is a (key, value) pair is decorated with its '
+           'key only, a plain element with itself (scenario interpretation '
+           'of the decorating loop); comparator reads are position 0 or a '
+           'loop position.',
+    'C15': 'The relative order of every non-commuting pair of modifiers is '
+           'the documented one (sql_quote after url_unquote); missing= is '
+           'returned under a membership test, not from a handler around '
+           'the evaluation of the value; option values bound to a local '
+           'are not consulted by truthiness; the digit-grouping regex is '
+           'fed the integer part only (part-tag flow domain).',
+    'C17': '__getstate__ is partially evaluated over the attribute names '
+           'the template classes assign: no volatile one is kept, every '
+           'other one is kept unchanged.',
+    'C19': 'Compiled blocks taken from a store shared between templates '
+           'are keyed by the encoding; join_unicode never assigns into the '
+           'sequence it was given unless every caller passes a list of its '
+           'own.',
+    'C20': 'The two translation tables are constant-folded to 256-byte '
+           'tables that undo each other on the base64 alphabet; the link '
+           'parameters are found by partial evaluation of the formatted '
+           'strings for an expanded / collapsed node; every node id is '
+           'read with the id attribute configured on the tag '
+           '(inter-procedural origin of the attribute name).',
+}
+EXTRA_TECH = {
+    'C01': 'prefix-knowledge abstract interpretation of the SGML scanner',
+    'C12': 'zone (difference-bound) abstract interpretation of opt() with '
+           'a ghost pull counter',
+    'C17': 'partial evaluation of __getstate__ over the statically known '
+           'attribute names',
+    'C20': 'constant folding of the translation tables; partial string '
+           'evaluation of the link formats',
+    'C09': 'DFA-valued shape domain for the compiled tuples',
+}
 NA = {
     'C16': 'numerical identities over run-time data (sums, means, n vs n-1, '
            'medians of mixed types): no static argument in reach bounds '
@@ -390,7 +460,15 @@ def main():
     for pid in ALL:
         if pid not in CLAIMED:
             continue
-        c = CLAIMED[pid]
+        c = dict(CLAIMED[pid])
+        if pid in EXTRA_TEXT:
+            t = c['text']
+            t = t.replace('Not decided: the numeric look-ahead bound.', '')
+            i = t.find('Not decided')
+            c['text'] = (t + ' ' + EXTRA_TEXT[pid]) if i < 0 else (
+                t[:i] + EXTRA_TEXT[pid] + ' ' + t[i:])
+        if pid in EXTRA_TECH:
+            c['technique'] += '; ' + EXTRA_TECH[pid]
         checks.append({
             'property_id': pid,
             'quick_cmd': f'{PY} check {pid} --tier quick',
